@@ -11,6 +11,12 @@ pub(crate) use spin::{
     Condvar, Mutex, MutexGuard, PoisonError, RwLock, RwLockReadGuard, RwLockWriteGuard,
 };
 
+// Verification hook: a named pause point. Inert here; a build that replaces this module with a
+// controlled scheduler's primitives turns it into a scheduling point.
+#[cfg(redb_verif)]
+#[inline]
+pub(crate) fn verif_pause(_site: &'static str) {}
+
 // Compiled for test builds as well, so that the tests below run as part of the normal test suite
 // rather than only in the no_std configuration. Nothing outside this module uses it in that case,
 // so the parts the tests do not reach are expected to be unused there.
